@@ -29,5 +29,11 @@ TEXTS = {
         level_text="Fault enumeration, complete for the stated space: every (mode, event, valid source, real device state incl. wrong sources) root and every assignment of the 6 step outcomes to the steps the transitioner issues is executed against the real client code (doTransition acceptance rule included) and compared with the simulated device's true state. The space is finite and small, so it is enumerated rather than sampled.",
         level_note="Trusts the device simulation (written from occ/plugin/OccFMQCommon.cxx and the FairMQ state table); 'unknown' reports are accepted only in the three situations listed in the assumptions.",
     ),
+    "C07": dict(
+        engine="inprocess-rapid",
+        technique="property-based testing (rapid) with a harness-owned schedule: every Consul KV request on the run counter is held by the simulated Consul and served in a generated order with generated faults (CAS refusal, dropped/cut connections, foreign writers); invariant over the recorded call history (uniqueness, real-time monotonicity, every number backed by an applied CAS)",
+        level_text="Generated-schedule search where the interleaving of the read and compare-and-set steps of all callers is chosen by the generator, not by the Go scheduler: thousands of schedules per run including crash points before/after the CAS is applied and foreign writers. Exploration level: the schedule space is unbounded in callers and steps; it is sampled with shrinking to minimal interleavings.",
+        level_note="Trusts the simulated Consul's cas= semantics; the whole-core part (START_ACTIVITY cancelled when no number can be obtained) is covered by the simworld checks, not here.",
+    ),
 }
 NA_REASONS = {}
